@@ -803,11 +803,17 @@ def quantizeCoreP (c : Ctx) (d : Cell) (v : Src) (exp : Int) : Prog Cond := do
   let ve ← rdExp v
   let diff := exp - ve
   setDec d v
-  if diff < 0 then
-    if diff < MinExponent then pure (cSysUnderflow ||| cUnderflow)
+  if diff < 0 then do
+    -- a zero coefficient needs no rescaling, whatever the distance (repair of finding F6)
+    let z ← isZeroP (.cell d)
+    if !z then
+      if diff < MinExponent then pure (cSysUnderflow ||| cUnderflow)
+      else do
+        let dc ← rdCoeff (.cell d)
+        wrCoeff d (dc * 10 ^ (-diff).toNat)
+        wrExp d exp
+        pure {}
     else do
-      let dc ← rdCoeff (.cell d)
-      wrCoeff d (dc * 10 ^ (-diff).toNat)
       wrExp d exp
       pure {}
   else if diff > 0 then do
